@@ -155,7 +155,8 @@ func (s *rangeProofStructure) verifyProofStructure(proof RangeProof) bool {
 	// Validate size of secret results
 	rangeLimit := new(big.Int).Lsh(big.NewInt(1), s.l2+rangeProofEpsilon+2)
 	for _, val := range proof.Results[s.rangeSecret] {
-		if val.Cmp(rangeLimit) >= 0 {
+		// (negative responses would pass the upper bound while standing for huge values modulo the group order)
+		if val.Sign() < 0 || val.Cmp(rangeLimit) >= 0 {
 			return false
 		}
 	}
